@@ -111,6 +111,10 @@ def gen_replies(tier, rng):
                     combos = rng.sample(combos, 600 if tier == "quick" else 6000)
                 for lines in combos:
                     out.append((code, list(lines), lst))
+    # replies much larger than any block or buffer size (8192 bytes, 64 KiB), in characters and - differently - in bytes
+    for lst in (False, True):
+        for n, kinds in ((150, ["é ж" * 9]), (300, ["plain text", "é ж"]), (700, ["名前 x", "ab€", "x" * 40]), (40, ["ж" * 230]), (2500, ["é"])):
+            out.append(("250", [kinds[i % len(kinds)] + (" %d" % i) for i in range(n)], lst))
     return out
 
 
